@@ -13,8 +13,8 @@ from pony import orm
 from pony.orm import core, asttranslation, decompiling
 from pony.utils import utils as putils
 
-BOUND_Q = 'one model (Item with query-running hooks, Tag); all histories of <= 2 statements and triples around 12 core statements, out of 58 statement kinds'
-BOUND_T = 'all histories of <= 3 statements out of 58 statement kinds'
+BOUND_Q = 'one model (Item with query-running hooks, Tag); all histories of <= 2 statements and triples around 12 core statements, out of 62 statement kinds'
+BOUND_T = 'all histories of <= 3 statements out of 62 statement kinds'
 
 
 def build():
@@ -61,6 +61,10 @@ def _rawfrag_ge(Item, v): return sorted(orm.select(i.name for i in Item if orm.r
 def _rawfilter_ts(Item, v): return sorted(i.name for i in Item.select().filter(orm.raw_sql('i.ts = $v')))
 def _rawresult(Item, k): return sorted(orm.select(orm.raw_sql('i.p + $k') for i in Item))
 
+def _base_tags(Item): return orm.select(t for i in Item for t in i.tags)          # the result (Tag t) is not the loop variable i (Item): filter() binds the lambda argument to the result, where() to the loop variable of that name
+LAM_ID = lambda i: i.id < 2
+LAM_ID_TEXT = 'lambda i: i.id < 2 '
+
 S = {}
 def st(name):
     def deco(f): S[name] = f; return f
@@ -78,6 +82,10 @@ st('exists_lambda')(lambda M: M.Item.exists(LAM))
 st('get_lambda')(lambda M: getattr(M.Item.get(lambda i: i.p == 4), 'name', None))
 st('select_text')(lambda M: sorted(i.name for i in M.Item.select(LAM_TEXT)))
 st('filter_text')(lambda M: sorted(i.name for i in M.Item.select().filter(LAM_TEXT)))
+st('filter_binds_the_result')(lambda M: sorted(t.label for t in _base_tags(M.Item).filter(LAM_ID)))
+st('where_binds_the_loop_variable')(lambda M: sorted(t.label for t in _base_tags(M.Item).where(LAM_ID)))
+st('filter_text_binds_the_result')(lambda M: sorted(t.label for t in _base_tags(M.Item).filter(LAM_ID_TEXT)))
+st('where_text_binds_the_loop_variable')(lambda M: sorted(t.label for t in _base_tags(M.Item).where(LAM_ID_TEXT)))
 st('param_1')(lambda M: _by_param(M.Item, 1))
 st('param_3')(lambda M: _by_param(M.Item, 3))
 st('param_float')(lambda M: _by_param(M.Item, 3.0))
